@@ -214,9 +214,16 @@ class Check:
                                {"kind": "obligation", "module": m, "output": out[-2000:]}, found=False)
 
     # ---------------------------------------------------------------- correspondence
-    def run_harness(self, sub, extra=(), timeout=3600):
+    def run_harness(self, sub, extra=(), timeout=None):
         cmd = [RKH, sub, "--out", self.work, "--seed", str(self.seed), "--tier", self.tier] + list(extra)
-        rc, out = sh(cmd, timeout=timeout)
+        timeout = timeout or (5400 if self.thorough else 1200)
+        try:
+            rc, out = sh(cmd, timeout=timeout)
+        except subprocess.TimeoutExpired:
+            # the harness runs the implementation in-process: not finishing is a hang or a deadlock there
+            self.violation("harness:" + sub + ":timeout", "harness sub-command %s did not finish within %d s (a hang or deadlock while driving the implementation)" % (sub, timeout),
+                           {"kind": "obligation", "obligation": "rkh " + sub}, found=False)
+            return False
         if rc != 0:
             self.violation("harness:" + sub, "harness sub-command %s failed (rc=%d)" % (sub, rc),
                            {"kind": "obligation", "obligation": "rkh " + sub, "output": out[-3000:]}, found=False)
